@@ -8,6 +8,11 @@ Each group is a directory /verif/mc/overlay/<group>/ with sub-trees
 An extra group given as an absolute path is used as is (generated trees, e.g. C18
 instrumented sources, mutants for the selftest).
 Only ADDS files unless the group is an absolute path (generated replacement trees).
+
+Seam stubs: a shim X.go that reaches into UNEXPORTED names of tink may have a sibling X.go.stub with the same
+exported API and no reference to tink internals. Normally the stub is ignored; with VERIF_STUBS=1 (set by check.sh
+after the normal build failed) the stub takes the place of X.go, so that a refactoring of tink internals costs the
+seam-level sections only, not the whole check.
 """
 import json, os, sys
 out = sys.argv[1]
@@ -22,8 +27,15 @@ for g in sys.argv[2:]:
     for sub, root in (("repo", repo), ("goroot", os.path.join(goroot, "src"))):
         top = os.path.join(gdir, sub)
         for d, _, files in os.walk(top):
-            for f in files:
+            for f in sorted(files):
                 src = os.path.join(d, f)
+                if f.endswith(".stub"):
+                    if os.environ.get("VERIF_STUBS") != "1":
+                        continue
+                    rep[os.path.join(root, os.path.relpath(src[:-5], top))] = os.path.abspath(src)
+                    continue
+                if os.environ.get("VERIF_STUBS") == "1" and os.path.exists(src + ".stub"):
+                    continue
                 rel = os.path.relpath(src, top)
                 dst = os.path.join(root, rel)
                 if not os.path.isabs(g) and os.path.exists(dst):
